@@ -123,15 +123,15 @@ var registry = []propertySpec{
 		Harnesses: []harnessSpec{
 			{Name: "VerifC07_Copy", Quick: tierSpec{Cases: 6}, Thorough: tierSpec{Cases: 6}, Sched: -1,
 				Bounds: "trees of 1..3 nodes (star and chain), every node one of 8 kinds (plain, BIRT, RESI, EVEN, DATE in 5 forms, _UID valid/malformed, NAME, PLAC) with symbolic value bytes / year digits"},
-			{Name: "VerifC07_Permute", Quick: tierSpec{Cases: 3}, Thorough: tierSpec{Cases: 4, Split: 3}, Sched: -1,
-				Bounds: "root with 2 or 3 children of the 8 kinds, optionally one grandchild (plain or DATE) each; all 2!/3! orders"},
+			{Name: "VerifC07_Permute", Quick: tierSpec{Cases: 3}, Thorough: tierSpec{Cases: 3, Split: 3}, Sched: -1,
+				Bounds: "root with 2 or 3 children of the 8 kinds, with 2 children optionally one grandchild (plain or DATE) each; all 2!/3! orders"},
 			{Name: "VerifC07_Symmetry", Quick: tierSpec{Cases: 4}, Thorough: tierSpec{Cases: 4}, Sched: -1,
 				Bounds: "two independent chains of 1..2 nodes of the 8 kinds with symbolic data"},
 			{Name: "VerifC07_Edit", Quick: tierSpec{Cases: 18}, Thorough: tierSpec{Cases: 18}, Sched: -1,
 				Bounds: "trees of 1..3 nodes x {insert plain node, delete plain leaf, change plain value} at every position"},
 		},
 		Assumptions: []string{"node values: one symbolic byte (A-Z) or symbolic year 1000..2999"},
-		Outside:     "trees with more than 3 (permute: 7) nodes, two simultaneous edits, individuals and families inside documents (covered by C13/C10 harnesses)",
+		Outside:     "trees with more than 3 (permute: 5; 3 children with grandchildren, 7 nodes, was tried in the thorough tier and did not finish in 13 minutes / 1.2 million paths) nodes, two simultaneous edits, individuals and families inside documents (covered by C13/C10 harnesses)",
 	},
 	{
 		ID:    "C08",
@@ -183,8 +183,8 @@ var registry = []propertySpec{
 		ID:    "C13",
 		Files: map[string][]string{"": {"zz_verif_lib.go", "zz_verif_c13.go"}},
 		Harnesses: []harnessSpec{
-			{Name: "VerifC13_History", Quick: tierSpec{Cases: 2, Split: 1}, Thorough: tierSpec{Cases: 2, Split: 1}, Sched: -1,
-				Bounds: "every history of 1 and 2 operations over 13 edits (AddNode, DeleteNode, SetNodes, AddIndividual new/clashing pointer, AddFamily, Set/Clear Husband/Wife, AddChild, Document.DeleteNode of a family / an individual) and 7 reads (views, Warnings, String, Compare, SurroundingSimilarity, CompareNodes+Sort, DeepCopy into another document) on a 3-person family; views read twice so that caches are warm"},
+			{Name: "VerifC13_History", Quick: tierSpec{Cases: 2, Split: 1}, Thorough: tierSpec{Cases: 3, Split: 2}, Sched: -1,
+				Bounds: "every history of 1 and 2 (thorough: and 3) operations over 13 edits (AddNode, DeleteNode, SetNodes, AddIndividual new/clashing pointer, AddFamily, Set/Clear Husband/Wife, AddChild, Document.DeleteNode of a family / an individual) and 7 reads (views, Warnings, String, Compare, SurroundingSimilarity, CompareNodes+Sort, DeepCopy into another document) on a 3-person family; views read twice so that caches are warm"},
 		},
 		Assumptions: []string{"relation views that crash on dangling references are rendered as PANIC on both sides (crashes are C14's subject)"},
 		Outside:     "histories longer than 2 (thorough: 3) operations, publish and query as reads (their purity is asserted in the C14/C15 harnesses), other documents",
@@ -271,8 +271,8 @@ var registry = []propertySpec{
 		ID:    "C15",
 		Files: map[string][]string{"q": {"zz_verif_q_lib.go", "zz_verif_c15.go"}},
 		Harnesses: []harnessSpec{
-			{Name: "VerifC15_Eval", Pkg: "q", Quick: tierSpec{Cases: 4}, Thorough: tierSpec{Cases: 8, Split: 2}, Sched: -1,
-				Bounds: "source (9 forms) | stage (42 templates: accessors, unknown accessors, First/Last/Length/Only/Combine/NodesWithTagPath/MergeDocumentsAndIndividuals with right and wrong argument counts, objects, variables, operators; numeric arguments as symbolic digits) with one stage (thorough: two) on 4 document sets (small family, empty, single person, two documents); every result to all five formatters"},
+			{Name: "VerifC15_Eval", Pkg: "q", Quick: tierSpec{Cases: 5}, Thorough: tierSpec{Cases: 8, Split: 2}, Sched: -1,
+				Bounds: "source (9 forms) | stage (42 templates: accessors, unknown accessors, First/Last/Length/Only/Combine/NodesWithTagPath/MergeDocumentsAndIndividuals with right and wrong argument counts, objects, variables, operators; numeric arguments as symbolic digits) with one stage on 4 document sets and two stages on the small family (thorough: two stages on all 4) (small family, empty, single person, two documents); every result to all five formatters"},
 			{Name: "VerifC15_Special", Pkg: "q", Quick: tierSpec{Cases: 38}, Thorough: tierSpec{Cases: 38}, Sched: -1,
 				Bounds: "19 hostile programs (self-referential variables, nil pipelines, deep .Nodes chains, syntax garbage) on 2 document sets"},
 			{Name: "VerifC15_Accessors", Pkg: "q", Quick: tierSpec{Cases: 40}, Thorough: tierSpec{Cases: 40}, Sched: -1,
